@@ -301,3 +301,111 @@ pub fn family_promotion(rng: &mut Rng, n: usize, out: &mut Vec<Desc>) {
         out.push(d.flipped());
     }
 }
+
+/// near-terminal positions: the side to move has its king plus at most two other units, the opponent a few pieces
+/// that box the king in; kept when the library reports at most two legal moves.  A quarter of the samples put an
+/// en-passant capture on the board (own pawn next to a just-moved enemy pawn, often with a rook or queen on that rank).
+pub fn family_boxed(rng: &mut Rng, n: usize, out: &mut Vec<Desc>) {
+    let mut tries = 0;
+    let target = out.len() + n;
+    while out.len() < target && tries < n * 400 {
+        tries += 1;
+        let mut d = Desc::empty();
+        let k = if rng.chance(2, 3) { *rng.pick(&[0usize, 7, 56, 63, 3, 4, 24, 31, 32, 39, 59, 60, 1, 6, 8, 15, 48, 55, 57, 62]) } else { rng.below(64) };
+        d.pl[k] = b'K';
+        let with_ep = rng.chance(1, 4);
+        if with_ep {
+            let f = 1 + rng.below(6);
+            let side: i32 = if rng.chance(1, 2) { 1 } else { -1 };
+            let (p, c) = (32 + f, (32 + f as i32 + side) as usize);
+            if d.pl[p] != b'.' || d.pl[c] != b'.' || k == 40 + f || k == 48 + f { continue }
+            d.pl[p] = b'p'; d.pl[c] = b'P'; d.ep = Some((40 + f) as u8);
+            if rng.chance(2, 3) { let s = 32 + rng.below(8); if d.pl[s] == b'.' { d.pl[s] = *rng.pick(b"rq") } }
+        } else {
+            for _ in 0..rng.below(3) {
+                let s = rng.below(64);
+                if d.pl[s] != b'.' { continue }
+                let t = *rng.pick(b"PPNBRQ");
+                if t == b'P' && (s / 8 == 0 || s / 8 == 7) { continue }
+                d.pl[s] = t;
+                // a blocker in front of a pawn, often
+                if t == b'P' && s + 8 < 64 && d.pl[s + 8] == b'.' && rng.chance(2, 3) { d.pl[s + 8] = *rng.pick(b"pnb") }
+            }
+        }
+        let bk = rng.below(64);
+        if d.pl[bk] != b'.' || adjacent(bk, k) { continue }
+        d.pl[bk] = b'k';
+        for _ in 0..(1 + rng.below(3)) {
+            // enemy pieces near the king
+            let kr = (k / 8) as i32 + rng.below(5) as i32 - 2;
+            let kf = (k % 8) as i32 + rng.below(5) as i32 - 2;
+            let s = if rng.chance(2, 3) && (0..8).contains(&kr) && (0..8).contains(&kf) { (kr * 8 + kf) as usize } else { rng.below(64) };
+            if d.pl[s] == b'.' && !(d.ep == Some(s as u8)) && !(d.ep.map_or(false, |e| e as usize + 8 == s)) { d.pl[s] = *rng.pick(b"qrrbnp") }
+        }
+        if (0..8).any(|f| d.pl[f] == b'p' || d.pl[56 + f] == b'p') { continue }
+        let b = match d.build_setup() { Ok(Ok(b)) => b, _ => continue };
+        if b.get_legal_moves().len() > 2 { continue }
+        out.push(d.clone());
+        out.push(d.flipped());
+    }
+}
+
+/// en-passant capture made illegal by a rank attack (king, capturer, victim and an enemy rook/queen on one rank),
+/// with the king boxed in: kept when the library reports at most one legal move
+pub fn family_ep_boxed(rng: &mut Rng, n: usize, out: &mut Vec<Desc>) {
+    let mut tries = 0;
+    let target = out.len() + n;
+    while out.len() < target && tries < n * 3000 {
+        tries += 1;
+        let mut d = Desc::empty();
+        // rank 5 (index 4): king, then capturer and victim adjacent, then the slider, in either direction
+        let kf = rng.below(8) as i32;
+        let dir: i32 = if rng.chance(1, 2) { 1 } else { -1 };
+        let gap1 = rng.below(3) as i32;
+        let a = kf + dir * (1 + gap1);
+        let b = a + dir;
+        let gap2 = rng.below(3) as i32;
+        let sl = b + dir * (1 + gap2);
+        if ![a, b, sl].iter().all(|x| (0..8).contains(x)) { continue }
+        let (cap, vic) = if rng.chance(1, 2) { (a, b) } else { (b, a) };
+        d.pl[(32 + kf) as usize] = b'K';
+        d.pl[(32 + cap) as usize] = b'P';
+        d.pl[(32 + vic) as usize] = b'p';
+        d.pl[(32 + sl) as usize] = *rng.pick(b"rq");
+        d.ep = Some((40 + vic) as u8);
+        let k = (32 + kf) as usize;
+        let bk = rng.below(64);
+        if d.pl[bk] != b'.' || adjacent(bk, k) || bk == (40 + vic) as usize || bk == (48 + vic) as usize { continue }
+        d.pl[bk] = b'k';
+        for _ in 0..(1 + rng.below(4)) {
+            let kr = 4 + rng.below(5) as i32 - 2;
+            let kf2 = kf + rng.below(5) as i32 - 2;
+            if !(0..8).contains(&kf2) { continue }
+            let s = (kr * 8 + kf2) as usize;
+            if s / 8 == 4 { continue }
+            if d.pl[s] == b'.' && s != (40 + vic) as usize && s != (48 + vic) as usize { d.pl[s] = *rng.pick(b"qrbnnp") }
+        }
+        // a blocker in front of the capturing pawn so that its push is not available, most of the time
+        let front = (40 + cap) as usize;
+        if d.pl[front] == b'.' && rng.chance(3, 4) { d.pl[front] = *rng.pick(b"pnb") }
+        let bd = match d.build_setup() { Ok(Ok(x)) => x, _ => continue };
+        if bd.get_legal_moves().len() > 1 { continue }
+        out.push(d.clone());
+        out.push(d.flipped());
+    }
+}
+
+/// the position before the double push that created the en-passant square of `d`, and that push
+pub fn predecessor_of_ep(d: &Desc) -> Option<(Desc, String)> {
+    let e = d.ep? as usize;
+    let (pawn, org, pc) = if d.stm == b'w' { (e - 8, e + 8, b'p') } else { (e + 8, e - 8, b'P') };
+    if d.pl[pawn] != pc || d.pl[org] != b'.' || d.pl[e] != b'.' { return None }
+    let mut p = d.clone();
+    p.pl[pawn] = b'.';
+    p.pl[org] = pc;
+    p.ep = None;
+    p.stm = if d.stm == b'w' { b'b' } else { b'w' };
+    if d.stm == b'w' && p.full > 1 { p.full -= 1 }
+    let name = |s: usize| format!("{}{}", (b'a' + (s % 8) as u8) as char, (b'1' + (s / 8) as u8) as char);
+    Some((p, format!("{}{}", name(org), name(pawn))))
+}
